@@ -8,7 +8,7 @@ for l in open(sys.argv[1]):
         lines[m.group(1)] = m.groups()[1:]
 print("| seed | change | caught by | first line reported |\n|---|---|---|---|")
 for s in sorted(os.listdir(os.path.join(root, "seeded"))):
-    if not os.path.isdir(os.path.join(root, "seeded", s)):
+    if s.startswith("_") or not os.path.isdir(os.path.join(root, "seeded", s)):
         continue
     meta = json.load(open(os.path.join(root, "seeded", s, "meta.json")))
     e, ob, inp, first = lines.get(s, ("?", "0", "0", "not run"))
